@@ -98,6 +98,8 @@ Record conn_case := {
   k_echo : bspec                   (* received by the covert echo server *)
 }.
 
+Definition hyps_limit : nat := 1500.
+
 Section WithTable.
   Variable tbl : list pfx.
 
@@ -128,6 +130,13 @@ Section WithTable.
         (if k_cmp_relay k
          then bspec_matches (k_echo k)
                 (relay_stream c buf rest ++ skipn (sum_sizes (k_reads k)) stream ++ bspec_val (k_late k))
+         else true) &&
+        (* the hypotheses of C04_segmentation_invariance, decided on this genuine flight: the theorem
+           applies to it, for every segmentation and not only the one that was run *)
+        (if length stream <=? hyps_limit
+         then flight_hypsb (reveal_of stream (k_revs k)) (mark_of (k_marks k)) (fun _ _ => k_hs k)
+                           tbl (map mk_reg (k_regs k)) (N.to_nat (k_tracked k)) (map tid_of (k_ts k))
+                           (tid_of (fst f)) r (firstn c stream) (skipn c stream)
          else true)
       | None => false
       end
